@@ -167,10 +167,10 @@ def gen_cases(rng, tier):
     branches = [(r, l) for r in ["fc-dneff", "fc-vdneff", "ld-dneff", "ld-vdneff"] for l in ["kL", "L", "N"]] + [("ld-kL", "L"), ("ld-kL", "N")]
     for r, l in branches:
         cases.append(_design(rng, tier, r, l))
-    for _ in range(30 if tier == "quick" else 400):
+    for _ in range(30 if tier == "quick" else 300):
         cases.append(_design(rng, tier))
     # clean designs for the closed-form clauses: vdneff route, unchirped, centre on the grid
-    for _ in range(20 if tier == "quick" else 200):
+    for _ in range(20 if tier == "quick" else 150):
         c = _design(rng, tier, rng.choice(["fc-vdneff", "ld-vdneff"]))
         sps, R = c["sps"], c["R"]
         fs = sps * R
@@ -185,7 +185,7 @@ def gen_cases(rng, tier):
         c["kw"] = _kwargs(c["route"], c["length"], _f0() + c["m"] * fs / c["n"], kL, vd, 1.0)
         cases.append(c)
     # the same grating through the six vdneff routes (and the dneff / kL-only routes: same design, same response)
-    for _ in range(16 if tier == "quick" else 150):
+    for _ in range(16 if tier == "quick" else 100):
         sps, R = rng.choice(GVS)
         fs = sps * R
         n = rng.choice([256, 512] if tier == "quick" else [256, 512, 1024, 2048, 4096])
@@ -278,7 +278,12 @@ class _Spy:
 
 
 def _call_fbg(dev, x, kw, apo, F, filtfilt):
-    with time_limit(60):
+    try:
+        from threadpoolctl import threadpool_limits
+    except Exception:  # noqa
+        from contextlib import nullcontext as threadpool_limits
+    # single-threaded BLAS/OpenMP: same numbers, no oversubscription when several checks run side by side
+    with threadpool_limits(limits=1), time_limit(60):
         return dev.FBG(x, apodization=_apo_arg(apo), F=F, filtfilt=filtfilt, retH=True, print_params=False, **kw)
 
 
